@@ -55,7 +55,7 @@ fn parse_args(a: &[String]) -> Args {
     let mut i = 0;
     let valued = [
         "--engine", "--tier", "--seed", "--runs", "--start", "--jobs", "--out", "--digests-out", "--replay-dir",
-        "--max-wall", "--shrink-budget", "--run", "--vectors", "--tape-out",
+        "--max-wall", "--shrink-budget", "--run", "--vectors", "--tape-out", "--tape-file",
     ];
     while i < a.len() {
         if valued.contains(&a[i].as_str()) {
@@ -338,6 +338,37 @@ fn cmd_one(args: &Args) -> i32 {
     }
 }
 
+/// Execute a raw tape (JSON array) and print the transcript digest; used by
+/// the cross-build comparison and its shrinker.
+fn cmd_tape(args: &Args) -> i32 {
+    let e = find_engine(args.get("--engine").unwrap_or("hash"));
+    let tier = Tier::parse(args.get("--tier").unwrap_or("quick")).unwrap_or(Tier::Quick);
+    let path = match args.get("--tape-file") {
+        Some(p) => p,
+        None => return 2,
+    };
+    let s = match std::fs::read_to_string(path) {
+        Ok(s) => s,
+        Err(err) => {
+            eprintln!("{}: {}", path, err);
+            return 2;
+        }
+    };
+    let tape: Vec<u64> = match J::parse(&s) {
+        Ok(J::Arr(a)) => a.iter().map(|x| x.as_u64().unwrap_or(0)).collect(),
+        _ => {
+            eprintln!("bad tape file");
+            return 2;
+        }
+    };
+    let r = run_replay(&e, tier, &tape, args.flag("--verbose"));
+    for l in r.out.log.iter() {
+        println!("{}", l);
+    }
+    println!("digest={}", digest_hex(r.out.digest()));
+    0
+}
+
 fn cmd_selftest(args: &Args) -> i32 {
     let path = args.get("--vectors").unwrap_or("/verif/vectors/hashlib_vectors.json");
     match world::selftest::run(path) {
@@ -375,6 +406,7 @@ fn main() {
         "replay" => cmd_replay(&args),
         "one" => cmd_one(&args),
         "selftest" => cmd_selftest(&args),
+        "tape" => cmd_tape(&args),
         "engines" => {
             for e in engines() {
                 println!("{}", e.name);
